@@ -162,7 +162,7 @@ theorem accepted_reindex_fresh (defs : List IdxDef) (ops : List Op) (o : ObjId) 
 their *current* key values -/
 theorem fresh_run (defs : List IdxDef) (ops : List Op) (o : ObjId)
     (hm : o ∈ (run defs ops).tab.objs) (hp : (run defs ops).pending o = false) :
-    (run defs ops).snap o = (run defs ops).cur o :=
+    ∀ i, keyResAt ((run defs ops).snap o) i = keyResAt ((run defs ops).cur o) i :=
   (run_consistent defs ops).fresh o hm hp
 
 /-! ### the user-facing lookups -/
@@ -182,7 +182,7 @@ theorem lookup_eq_scan_current (defs : List IdxDef) (ops : List Op) (i : Nat) (k
   intro o
   rw [hc.count_scan, count_scan_list defs w.cur i k o w.tab.objs hc.tinv.objsNodup]
   split
-  · rename_i hm; rw [hc.fresh o hm (hp o hm)]
+  · rename_i hm; simp only [keysOf, hc.fresh o hm (hp o hm) i]
   · rfl
 
 /-- `obj in index.get(key)` -/
@@ -244,6 +244,59 @@ theorem get_one_unique (defs : List IdxDef) (ops : List Op) (i : Nat) (k : Key) 
     · rw [← hmem o]; simp [eq_comm]
     · cases allowNone <;> simp <;> exact ⟨a, (hmem a).mp rfl⟩
   | _ :: _ :: _ => simp [hl] at hlen
+
+/-! ### indices added at run time (`add_index` on a table that already contains objects)
+`xrun defs ops`: like `run`, but the history may also contain `addIndex d order` (the new index gets the next number; `order` is
+the iteration order of the object set, any list is allowed). -/
+
+/-- the invariant holds for the grown list of index definitions after every history with run-time `add_index` -/
+theorem consistent_xrun (defs : List IdxDef) (ops : List XOp) :
+    Consistent (xrun defs ops).defs (xrun defs ops).w :=
+  xrun_consistent defs ops
+
+/-- …spelled out: every index, old or added later, lists exactly the stored objects under exactly their keys -/
+theorem index_exact_xrun (defs : List IdxDef) (ops : List XOp) (i : Nat) (k : Key) (o : ObjId) :
+    ((xrun defs ops).w.tab.idx i k).count o =
+      if o ∈ (xrun defs ops).w.tab.objs then (keysOf (xrun defs ops).defs i ((xrun defs ops).w.snap o)).count k else 0 :=
+  (xrun_consistent defs ops).count_scan i k o
+
+/-- back references stay complete: the entry of a stored object names its filings in all indices, old and new -/
+theorem refs_exact_xrun (defs : List IdxDef) (ops : List XOp) (o : ObjId) (hm : o ∈ (xrun defs ops).w.tab.objs) :
+    (xrun defs ops).w.tab.refs o = some (allKeys (xrun defs ops).defs ((xrun defs ops).w.snap o)) :=
+  (xrun_consistent defs ops).refs_snap o hm
+
+theorem unique_index_single_xrun (defs : List IdxDef) (ops : List XOp) (i : Nat) (k : Key)
+    (hu : isUnique (xrun defs ops).defs i = true) : ((xrun defs ops).w.tab.idx i k).length ≤ 1 :=
+  (xrun_consistent defs ops).tinv.uniq i k hu
+
+/-- an `add_index` that raises (duplicate key of a unique index, list key) leaves table and index list as they were -/
+theorem rejected_add_index_noop (defs : List IdxDef) (ops : List XOp) (d : IdxDef) (order : List ObjId)
+    (x' : XWorld) (e : Err) (h : xstep (xrun defs ops) (.addIndex d order) = (x', some e)) :
+    x' = xrun defs ops := by
+  have hc := xrun_consistent defs ops
+  generalize xrun defs ops = x at h hc
+  have hs := addIndex_spec hc d order
+  simp only [xstep] at h
+  generalize addIndex x.defs x.w d order = r at h hs
+  obtain ⟨w', e'⟩ := r
+  cases e' with
+  | none => simp at h
+  | some e' =>
+    have := hs.2 e' rfl
+    simp only at this h
+    obtain ⟨h1, _⟩ := Prod.mk.inj h
+    subst h1; subst this
+    rfl
+
+/-- non-vacuity: objects 1, 2 stored with one multi index; a unique index over the second attribute is added later -/
+def exXOps (a2 : KeyRes) : List XOp :=
+  [.op (.setAttrs 1 [.one 7, .one 5]), .op (.add 1), .op (.setAttrs 2 [.one 7, a2]), .op (.add 2)]
+example : (xstep (xrun [⟨.multi, true⟩] (exXOps (.one 5))) (.addIndex ⟨.unique, true⟩ [2, 1])).2 = some .keyError := by decide
+example : (xstep (xrun [⟨.multi, true⟩] (exXOps (.one 6))) (.addIndex ⟨.unique, true⟩ [2, 1])).2 = none ∧
+    (xrun [⟨.multi, true⟩] (exXOps (.one 6) ++ [.addIndex ⟨.unique, true⟩ [2, 1], .op (.remove 1)])).w.tab.idx 1 6 = [2] ∧
+    (xrun [⟨.multi, true⟩] (exXOps (.one 6) ++ [.addIndex ⟨.unique, true⟩ [2, 1], .op (.remove 1)])).w.tab.idx 0 7 = [2] ∧
+    (xrun [⟨.multi, true⟩] (exXOps (.one 6) ++ [.addIndex ⟨.unique, true⟩ [2, 1], .op (.remove 1)])).w.tab.idx 1 5 = [] := by
+  decide
 
 /-! ### the real tables (definitions regenerated from the running code) -/
 
